@@ -191,6 +191,11 @@ func genC13(tier string, seed uint64, idx int) *simkit.Plan {
 		return 0 // "0" means 1 on the wire
 	}
 	n := rng.Range(6, 40)
+	if mode == 1 && rng.Chance(2, 3) {
+		// snowflake: the recorded finding (count ignored) ends every run that asks for more than one key;
+		// most runs ask for single keys so that the rest of the sequencer gets its turn
+		counts = func() int { return 1 }
+	}
 	if mode != 3 {
 		insts := 1
 		if mode == 2 {
